@@ -9,6 +9,7 @@ mod ehttp;
 mod epayload;
 mod esched;
 mod eseq;
+mod esize;
 mod esweep;
 mod http;
 mod model;
